@@ -55,6 +55,57 @@ PROPS = {
         rule="methods GET/POST/PUT/DELETE/OPTIONS x bodies (empty, 1 byte, text, all 256 byte values, 100 KiB) x header multisets drawn from a pool with repeated names, mixed case, every hop-by-hop name, Authorization, conditional and Range headers x rule flavours (copy target, retry_rule that matches or not, four hostheader modes, request_headers set/delete/add) x fault scripts (k connection failures then success with k up to the retry budget + 1, 4xx then fallback, copy failures); non-trivial = at least one delivery; distinct = distinct case encodings",
         classify=kind_of,
     ),
+    "C15": dict(
+        family="unit+cache",
+        proof_files=["Proofs/C15Proofs.v", "Spec/SpecC15.v"],
+        trusted_base=TB_COMMON + ["server/verif_export.go (verif-tagged wrapper calling getRange, setRangedHeaders and the requestRange methods)"],
+        assumptions=ASSUME_COMMON + ["offsets near the int64 limits wrap in Go and are not generated", "416 is accepted whenever the named range is not wholly inside the resource (lenient reading of 'lies outside')"],
+        rule="exhaustive: resource lengths 0..12 (0..24 thorough) x every a-b, a-, -s with values 0..14 (0..27) (the a-b grid thinned to a third in quick, keeping the diagonal and both boundaries) + 26 malformed / multi-range / signed / overflowing spellings per length + non-200 statuses + unknown length; each case runs the real getRange, setRangedHeaders, start/size arithmetic; non-trivial = the header is non-empty; distinct = distinct case encodings",
+        exhaustive=True,
+        classify=lambda row: "range-unit",
+    ),
+    "C06": dict(
+        family="unit+cache",
+        proof_files=["Proofs/C06Proofs.v", "Spec/SpecC06.v"],
+        trusted_base=TB_COMMON + ["compress/gzip and the brotli binding: only dec(enc x) = x is assumed, as a hypothesis in the theorem statement"],
+        assumptions=ASSUME_COMMON + ["proxy.canTransform is unexported without a hook: at unit level its model is compared with a transcription, it is exercised for real in the end-to-end stream"],
+        rule="exhaustive decision table: 20 Accept-Encoding strings (every class incl. substrings such as x-brand, upper case, q-values) x 10 Content-Encoding values x 9 Content-Type values x 7 Cache-Control values through the real util.GetRecompression; non-trivial = all; distinct = distinct case encodings",
+        exhaustive=True,
+        classify=lambda row: "recomp-unit",
+    ),
+    "C07": dict(
+        family="unit+cache",
+        proof_files=["Proofs/C07Proofs.v"],
+        trusted_base=TB_COMMON + ["caching/verif_export.go (verif-tagged aliases of encodeStorageMetadata / decodeStorageMetadata)", "the JSON fallback decoder is outside the model (a custom-encoded record never starts with '{')"],
+        assumptions=ASSUME_COMMON + ["a panic of sToHeader on corrupted metadata (empty last part) is reported as a decode error"],
+        rule="metadata records with header names/values drawn half from plain HTTP vocabulary and half from the delimiter alphabet (| [ ] ], { } : , quotes backslash JSON), single and repeated values, hosts/paths/redirects with '|'; plus raw strings for the decoder (valid, perturbed, truncated, JSON-looking, junk); the real encoder's output is decoded by the model and compared with the input record; non-trivial = the record has at least one header; distinct = distinct case encodings",
+        classify=lambda row: "codec-unit",
+    ),
+    "C09": dict(
+        family="unit+cache",
+        proof_files=[],
+        trusted_base=TB_COMMON + ["ETAG_SUFFIX is read from the process environment: unit cases set it under a mutex"],
+        assumptions=ASSUME_COMMON,
+        rule="ETag forms (quoted, weak, unquoted, empty, already suffixed, stray quotes, W and / prefixes) x suffix unset / four suffix values through the real AddETagSuffix, StripETagSuffix, normalizeEtag; non-trivial = non-empty ETag; distinct = distinct case encodings",
+        exhaustive=True,
+        classify=lambda row: "etag-unit",
+    ),
+    "C10": dict(
+        family="unit+cache",
+        proof_files=["Proofs/C10Proofs.v", "Spec/SpecC10.v"],
+        trusted_base=TB_COMMON + ["caching/verif_export.go (VerifDirectives exposes the unexported directive fields)"],
+        assumptions=ASSUME_COMMON + ["qualified no-cache=\"...\" / private=\"...\", quoted or signed lifetimes and contradictory repeated lifetimes are don't-cares (the property text does not decide them)"],
+        rule="36 directive spellings (cases, HTAB/SP padding, quoted, signed, qualified, malformed) alone, after 'public,', before ',max-age=60' and on a second header line, then random multi-line headers of 1-4 lines x 1-4 members with four separators, with and without Vary; non-trivial = at least one directive; distinct = distinct case encodings",
+        classify=lambda row: "cc-unit",
+    ),
+    "C11": dict(
+        family="unit+cache",
+        proof_files=["Proofs/C11Proofs.v"],
+        trusted_base=TB_COMMON + ["SHA-1 is implemented in Coq (Lib/Sha1.v, FIPS test vectors checked by vm_compute) to compute entry names; the theorems treat the hash as an injective function (hypothesis in the statement)"],
+        assumptions=ASSUME_COMMON + ["finding F11 (key host is the client Host while the key path is the destination path) is an end-to-end matter, see known_findings.json"],
+        rule="entry names of the real KeysFromRequest/FsName compared with the model's (SHA-1 computed in Coq) on requests over colliding vocabularies, and pairs of requests: every legal re-split of one request's key string (method|host, path|headers, value|value, name|value, opaqueOrigin), near copies differing in one field, equal pairs and random pairs; the monitor demands equal names only for the same resource; non-trivial = all; distinct = distinct case encodings",
+        classify=lambda row: "key-unit",
+    ),
     "C20": dict(
         family="copy",
         proof_files=["Proofs/C20Proofs.v", "Proofs/RouteProofs.v", "Proofs/C01Proofs.v"],
